@@ -177,7 +177,9 @@ func runMetricsWL(e *Env) {
 					`{"group":"g1","action":"observe","name":"gx","value":1}`,
 					`{"action":"set","value":1}`,
 					`{"group":"g1","name":"","action":"set","value":1}`,
-				}[wl.Choose(6)]
+					`{"name":"uh","action":"observe","value":1,"labels":{"a":"x"}}`,       // buckets are required for observe
+					`{"name":"uh","action":"observe","buckets":[1,5],"labels":{"a":"x"}}`, // value is required
+				}[wl.Choose(8)]
 			}
 			lines = append(lines, line)
 		}
